@@ -11,8 +11,11 @@ for t in base['stable_pass']:
     by[pkg].append(name)
 env = dict(os.environ, GOFLAGS='-mod=mod', GOPROXY='off', GOSUMDB='off', GOTOOLCHAIN='local')
 bad = []
-for pkg, names in sorted(by.items()):
-    if filt and filt not in pkg: continue
+from concurrent.futures import ThreadPoolExecutor
+def run_pkg(item):
+    pkg, names = item
+    out_lines = []
+    if filt and filt not in pkg: return []
     tops = sorted({n.split('/')[0] for n in names})
     rx = '^(' + '|'.join(tops) + ')$'
     rel = './' + pkg.replace('github.com/projecteru2/core', '').lstrip('/')
@@ -23,9 +26,20 @@ for pkg, names in sorted(by.items()):
         except Exception: continue
         if e.get('Test') and e.get('Action') in ('pass', 'fail', 'skip'):
             res[e['Test']] = e['Action']
-    for n in names:
-        if res.get(n) != 'pass':
-            bad.append((pkg, n, res.get(n)))
+    b = [(pkg, n, res.get(n)) for n in names if res.get(n) != 'pass']
+    if b and not os.environ.get('NO_RETRY'):
+        # one retry: embedded-etcd/redis tests are flaky under load
+        out = subprocess.run(['go', 'test', '-vet=off', '-count=1', '-json', '-run', rx, rel], cwd=repo, env=env, capture_output=True, text=True)
+        for line in out.stdout.splitlines():
+            try: e = json.loads(line)
+            except Exception: continue
+            if e.get('Test') and e.get('Action') == 'pass':
+                res[e['Test']] = 'pass'
+        b = [(pkg, n, res.get(n)) for n in names if res.get(n) != 'pass']
     print(f"{pkg}: {sum(1 for n in names if res.get(n)=='pass')}/{len(names)}", flush=True)
+    return b
+with ThreadPoolExecutor(int(os.environ.get('JOBS', '6'))) as ex:
+    for b in ex.map(run_pkg, sorted(by.items())):
+        bad.extend(b)
 for b in bad: print('NOT PASS', *b)
 sys.exit(1 if bad else 0)
